@@ -477,19 +477,25 @@ func (w *World) reap(t *Task) {
 // started.  Without it every run would leave them behind, with everything they reference.
 func (w *World) Shutdown() {
 	w.markDead()
-	for _, t := range w.tasks {
-		if !t.child || t.isDone() {
+	for _, t := range w.tasksSnapshot() {
+		if !t.child {
 			continue
 		}
-		w.setCur(t)
-		raceDisable()
-		t.wake <- struct{}{}
+		if !t.isDone() {
+			w.setCur(t)
+			raceDisable()
+			t.wake <- struct{}{}
+			raceEnable()
+		}
+		// Receiving the close of done (race detector on) orders everything the goroutine did before
+		// what the harness does next - putting the package's state back for the next run, for one.
+		// That is an edge of the harness, about the harness's own writes; no library access is
+		// ordered by it against another library access of the same run.
 		select {
 		case <-t.done:
 		case <-time.After(2 * time.Second):
 			// its deferred calls wait for something real: leave it behind
 		}
-		raceEnable()
 	}
 }
 
